@@ -46,6 +46,7 @@ func cmdHarness(args []string) {
 	workers := fs.Int("j", 16, "workers")
 	replay := fs.Bool("replay", false, "replay violations natively")
 	dump := fs.String("dump", "", "dump verdict queries to dir")
+	solver := fs.String("solver", "", "main solver (z3, z3-new)")
 	var params multiFlag
 	fs.Var(&params, "p", "param name=value")
 	fs.Parse(args)
@@ -53,7 +54,7 @@ func cmdHarness(args []string) {
 		fmt.Println("usage: gosmt harness [flags] <pkgdir> <func>")
 		os.Exit(2)
 	}
-	spec := HarnessSpec{Pkg: fs.Arg(0), Func: fs.Arg(1), Unwind: *unwind, Params: map[string]int{}}
+	spec := HarnessSpec{Pkg: fs.Arg(0), Func: fs.Arg(1), Unwind: *unwind, Params: map[string]int{}, Solver: *solver}
 	for _, p := range params {
 		kv := strings.SplitN(p, "=", 2)
 		v, _ := strconv.Atoi(kv[1])
